@@ -111,10 +111,12 @@ def Env.maxWidth (env : Env) : Nat :=
 /-- the text of a cell -/
 def cellText (v : Value) : Str := v.render.toList
 
-/-- `format_with_ellipsis` (printer.rs:272-284) -/
+/-- `format_with_ellipsis` (printer.rs:272-288).  Since 9f65de4 a column narrower than 2 cells cuts
+the text to the column width instead of computing `limit - 2` (which underflowed); the function can
+no longer panic, the `Outcome` is kept for the callers' shape. -/
 def fmtEllipsis (inp : Str) (limit : Nat) : Outcome Str :=
   if inp.length > limit then
-    if limit < 2 then .panic "printer.rs:278 limit - ELLIPSIS.chars().count() - 1"
+    if limit < 2 then .ok (inp.take limit)
     else .ok (inp.take (limit - 2) ++ ['…', ' '])
   else .ok (padTo limit inp)
 
@@ -147,39 +149,45 @@ def resizeGo (len : Nat) (cw : WMap) : List String → Nat → Nat → WMap → 
   | [], _, _, acc => .ok acc
   | col :: rest, i, rem, acc =>
     match cw.get col with
-    | none => .panic "printer.rs:413 column_widths.get(col).unwrap()"
+    | none => .panic "printer.rs:417 column_widths.get(col).unwrap()"
     | some width =>
-      if len < i then .panic "printer.rs:416 self.column_widths.len() - i"
+      if len < i then .panic "printer.rs:420 self.column_widths.len() - i"
       else
         let maxc := share rem (len - i)
         if width < maxc then
-          if rem < width then .panic "printer.rs:418 remaining -= width"
+          if rem < width then .panic "printer.rs:422 remaining -= width"
           else resizeGo len cw rest (i + 1) (rem - width) (acc.put col width)
         else
-          if rem < maxc then .panic "printer.rs:421 remaining -= max_column_width"
+          if rem < maxc then .panic "printer.rs:425 remaining -= max_column_width"
           else resizeGo len cw rest (i + 1) (rem - maxc) (acc.put col maxc)
 
 /-- `resize_widths_to_fit` -/
 def resize (env : Env) (cw : WMap) (ordering : List String) : Outcome WMap :=
   if fits env cw then .ok cw else resizeGo cw.length cw ordering 0 env.maxWidth []
 
-/-- header cells: `format!("{:width$}", column_name, width = self.column_widths[column_name])` -/
+/-- header cells: `format_with_ellipsis(column_name, self.column_widths[column_name])` (since
+3a98c5e names are cut like body cells; before they were only padded) -/
 def headerCells (w : WMap) : List String → Outcome (List Str)
   | [] => .ok []
   | c :: cs =>
     match w.get c with
-    | none => .panic "printer.rs:463 self.column_widths[column_name]"
+    | none => .panic "printer.rs:464 self.column_widths[column_name]"
     | some n =>
-      match headerCells w cs with
-      | .ok rest => .ok (padTo n c.toList :: rest)
-      | o => o
+      match fmtEllipsis c.toList n with
+      | .ok cell =>
+        match headerCells w cs with
+        | .ok rest => .ok (cell :: rest)
+        | o => o
+      | .panic p => .panic p
+      | .err k => .err k
+      | .unmodelled u => .unmodelled u
 
 /-- the cells of one body row (`format_aggregate_row`, before `join`/`trim`) -/
 def rowCells (w : WMap) (row : Fields) : List String → Outcome (List Str)
   | [] => .ok []
   | c :: cs =>
     match w.get c with
-    | none => .panic "printer.rs:441 self.column_widths[column_name]"
+    | none => .panic "printer.rs:445 self.column_widths[column_name]"
     | some n =>
       match fmtEllipsis (cellText ((Fields.get c row).getD .none)) n with
       | .ok cell =>
@@ -190,10 +198,10 @@ def rowCells (w : WMap) (row : Fields) : List String → Outcome (List Str)
       | .err k => .err k
       | .unmodelled u => .unmodelled u
 
-/-- `format_aggregate_row`: cells joined, then `trim()` -/
+/-- `format_aggregate_row`: cells joined, then `trim_end()` (439c1ac; it was `trim()`) -/
 def rowLine (w : WMap) (cols : List String) (row : Fields) : Outcome Str :=
   match rowCells w row cols with
-  | .ok cells => .ok (Text.trim (concat cells))
+  | .ok cells => .ok (Text.trimEnd (concat cells))
   | .panic p => .panic p
   | .err k => .err k
   | .unmodelled u => .unmodelled u
@@ -236,14 +244,15 @@ def tableParts (env : Env) (widths : WMap) (t : Table) : Outcome (WMap × Parts)
   let w1 := absorbRows env.cfg widths t.rows
   match resize env w1 t.columns with
   | .ok w2 =>
-    if !fits env w2 then .panic "printer.rs:458 assert!(self.fits_within_term_agg())"
+    if !fits env w2 then .panic "printer.rs:462 assert!(self.fits_within_term_agg())"
     else
       match headerCells w2 t.columns with
       | .ok hs =>
         let header := concat hs
         match bodyLines w2 t.columns t.rows with
         | .ok body =>
-          .ok (w2, { header := Text.trim header, sep := List.replicate (byteLen header) '-', body := body })
+          -- `header.trim_end()` (439c1ac) and `"-".repeat(header.chars().count())` (0faaa16)
+          .ok (w2, { header := Text.trimEnd header, sep := List.replicate header.length '-', body := body })
         | .panic p => .panic p
         | .err k => .err k
         | .unmodelled u => .unmodelled u
@@ -310,7 +319,7 @@ def recordCells (noPad : Bool) (w : WMap) (data : Fields) : List String → Outc
       if noPad then .ok unpadded
       else
         match w.get c with
-        | none => .panic "printer.rs:380 self.column_widths[column_name]"
+        | none => .panic "printer.rs:384 self.column_widths[column_name]"
         | some n => .ok (padTo (byteLen c.toList + 3 + n) unpadded)
     match cell with
     | .ok x =>
